@@ -17,6 +17,7 @@ Definition of_opt_panic {A} (o : option A) : pres A := match o with Some a => PO
 
 Record pst := { ps_m : wir; ps_ids : i2ids;
                 ps_bodies : list wbody;            (* code entries collected during the payload loop *)
+                ps_names : list wnames;            (* name sections, resolved after the bodies are parsed *)
                 ps_calls_on_parse : N }.
 
 (* ConstExpr::eval *)
@@ -30,8 +31,8 @@ Definition eval_const (ids : i2ids) (c : wconst) : pres mconst :=
   | WC_Other => PErr
   end.
 
-Definition with_m (s : pst) (m : wir) : pst := {| ps_m := m; ps_ids := ps_ids s; ps_bodies := ps_bodies s; ps_calls_on_parse := ps_calls_on_parse s |}.
-Definition with_ids (s : pst) (i : i2ids) : pst := {| ps_m := ps_m s; ps_ids := i; ps_bodies := ps_bodies s; ps_calls_on_parse := ps_calls_on_parse s |}.
+Definition with_m (s : pst) (m : wir) : pst := {| ps_m := m; ps_ids := ps_ids s; ps_bodies := ps_bodies s; ps_names := ps_names s; ps_calls_on_parse := ps_calls_on_parse s |}.
+Definition with_ids (s : pst) (i : i2ids) : pst := {| ps_m := ps_m s; ps_ids := i; ps_bodies := ps_bodies s; ps_names := ps_names s; ps_calls_on_parse := ps_calls_on_parse s |}.
 
 (* record-update helpers for wir (one per field that parsing touches) *)
 Definition set_types (m : wir) v := {| m_imports := m_imports m; m_tables := m_tables m; m_types := v; m_funcs := m_funcs m; m_globals := m_globals m; m_locals := m_locals m; m_exports := m_exports m; m_memories := m_memories m; m_data := m_data m; m_elements := m_elements m; m_start := m_start m; m_producers := m_producers m; m_customs := m_customs m; m_debug := m_debug m; m_name := m_name m; m_config := m_config m; m_code_section_offset := m_code_section_offset m |}.
@@ -224,7 +225,7 @@ Fixpoint parse_data_from (m : wir) (ids : i2ids) (prealloc : bool) (i : N) (l : 
 Definition parse_data (m : wir) (ids : i2ids) (l : list wdata) : pres (wir * i2ids) :=
   parse_data_from m ids (negb (Nat.eqb (length (iter (m_data m))) 0)) 0 l.
 
-(* --- name section (parsed inside the payload loop, with the index maps as they are THEN) *)
+(* --- name section (read after the function bodies, with the final index maps) *)
 Fixpoint apply_names {A} (a : tarena A) (idx2id : list N) (setn : A -> str -> A) (l : namemap) : tarena A :=
   match l with
   | [] => a
@@ -273,7 +274,7 @@ Definition parse_custom (s : pst) (c : wcsec) : pst :=
   match c with
   | CS_Producers (Some p) => with_m s (set_producers m (m_producers m ++ p))
   | CS_Producers None => s
-  | CS_Name (Some n) => with_m s (parse_names m (ps_ids s) n)
+  | CS_Name (Some n) => {| ps_m := m; ps_ids := ps_ids s; ps_bodies := ps_bodies s; ps_names := ps_names s ++ [n]; ps_calls_on_parse := ps_calls_on_parse s |}
   | CS_Name None => s
   | CS_Debug name data => with_m s (set_debug m (m_debug m ++ [(name, data)]))
   | CS_Raw name data => with_m s (set_customs m (m_customs m ++ [Some {| cu_name := name; cu_data := data; cu_roots := [] |}]))
@@ -293,7 +294,7 @@ Definition parse_sec (s : pst) (sec : wsec) : pres pst :=
   | S_Start f => fid <-- of_opt_err (nth_N (ii_funcs ids) f) ;; POk (with_m s (set_start m (Some fid)))
   | S_Elems l => x <-- parse_elems m ids l ;; POk (with_ids (with_m s (fst x)) (snd x))
   | S_DataCount n => let '(m1, i1) := reserve_data m ids (N.to_nat n) in POk (with_ids (with_m s m1) i1)
-  | S_Code bs => POk {| ps_m := m; ps_ids := ids; ps_bodies := ps_bodies s ++ bs; ps_calls_on_parse := ps_calls_on_parse s |}
+  | S_Code bs => POk {| ps_m := m; ps_ids := ids; ps_bodies := ps_bodies s ++ bs; ps_names := ps_names s; ps_calls_on_parse := ps_calls_on_parse s |}
   | S_Data l => x <-- parse_data m ids l ;; POk (with_ids (with_m s (fst x)) (snd x))
   | S_Custom c => POk (parse_custom s c)
   end.
@@ -390,7 +391,7 @@ Definition s_walrus : str := [119;97;108;114;117;115].
 
 (* Module::parse; [version] = env!("CARGO_PKG_VERSION") as bytes *)
 Definition parseM (cf : config) (version : str) (w : wmod) : pres pst :=
-  let s0 := {| ps_m := empty_wir cf; ps_ids := empty_i2ids; ps_bodies := []; ps_calls_on_parse := 0 |} in
+  let s0 := {| ps_m := empty_wir cf; ps_ids := empty_i2ids; ps_bodies := []; ps_names := []; ps_calls_on_parse := 0 |} in
   s1 <-- parse_secs s0 w ;;
   let m := ps_m s1 in let ids := ps_ids s1 in
   let n_funcs := len_N (iter (m_funcs m)) in
@@ -400,5 +401,6 @@ Definition parseM (cf : config) (version : str) (w : wmod) : pres pst :=
   x <-- prepare_bodies m ids (n_funcs - n_bodies) 0 (ps_bodies s1) ;;
   let '(m1, ids1, prepared) := x in
   m2 <-- install_bodies m1 ids1 prepared ;;
+  let m2 := fold_left (fun m n => parse_names m ids1 n) (ps_names s1) m2 in
   let m3 := set_producers m2 (producers_field (m_producers m2) s_processed_by s_walrus version) in
-  POk {| ps_m := m3; ps_ids := ids1; ps_bodies := []; ps_calls_on_parse := ps_calls_on_parse s1 + 1 |}.
+  POk {| ps_m := m3; ps_ids := ids1; ps_bodies := []; ps_names := []; ps_calls_on_parse := ps_calls_on_parse s1 + 1 |}.
